@@ -137,7 +137,9 @@ ApplyRes1D(e) ==
                                             /\ FLeq(e.probes[k].out[i], FMul(tmax[k], FAdd(One, tol(i)))),
                           "average-within-range", LAMBDA i : ""))
        \o (IF basis = {} THEN <<>> ELSE
-             Bad(\A k \in basis : FVecAllGeq(e.probes[k].out, Zero), "weights-nonnegative", "column of W from apply(unit vector)"))
+             Bad(\A k \in basis : FVecAllFinite(e.probes[k].out), "weights-finite", "column of W from apply(unit vector)")
+             \o Bad(\A k \in basis : ~FVecAllFinite(e.probes[k].out) \/ FVecAllGeq(e.probes[k].out, Zero),
+                    "weights-nonnegative", "column of W from apply(unit vector)"))
        \* (|q_calc| may hold the data point twice - once from the negative branch of a wide
        \* neighbour's window - and the probe theories are indexed by position, so: some occurrence)
        \o RowClause(n, LAMBDA i : zero(i) => \E j \in RIndicesOf(qc, e.q[i]) :
@@ -249,10 +251,13 @@ TInit == l = 1 /\ st = 0 /\ TLCSet(1, 0) /\ TLCSet(2, 0)
 TNext ==
     /\ l <= NLines
     /\ LET e == TraceLog[l]
-           bads == Verdict(e)
+           all == Verdict(e)
+           \* one verdict per clause (register 2 counts the REJECT lines the harness must parse)
+           bads == SelectSeq([k \in 1..Len(all) |-> IF \E j \in 1..(k - 1) : all[j][1] = all[k][1] THEN <<>> ELSE all[k]],
+                             LAMBDA x : x # <<>>)
        IN IF bads = <<>> THEN TRUE
           ELSE /\ \A k \in 1..Len(bads) : PrintT(<<"REJECT", e.tid, l, bads[k][1], Pad(bads[k][2])>>)
-               /\ TLCSet(2, TLCGet(2) + 1)
+               /\ TLCSet(2, TLCGet(2) + Len(bads))
     /\ l' = l + 1
     /\ st' = st
     /\ TLCSet(1, l)
